@@ -49,7 +49,7 @@ def handlers : List (String × Handler) := [
   ("sys-C01", SysD.handleSysFor "C01"), ("sys-C02", SysD.handleSysFor "C02"), ("sys-C03", SysD.handleSysFor "C03"),
   ("sys-C04", SysD.handleSysFor "C04"), ("sys-C05", SysD.handleSysFor "C05"), ("sys-C10", SysD.handleSysFor "C10"),
   ("sys-C11", SysD.handleSysFor "C11"), ("sys-C12", SysD.handleSysFor "C12"), ("sys-C13", SysD.handleSysFor "C13"),
-  ("sys-C18", SysD.handleSysFor "C18"), ("sync-race", SysD.handleSyncRace), ("sys-real", SysD.handleSysReal), ("apisvc", Apisvc.handleApisvc),
+  ("sys-C18", SysD.handleSysFor "C18"), ("sync-race", SysD.handleSyncRace), ("sys-real", SysD.handleSysReal), ("pre-cancel", SysD.handlePreCancel), ("apisvc", Apisvc.handleApisvc),
   ("status", KS.handleStatus),
   ("status-c07", KS.handleStatusC07),
   ("status-c08", KS.handleStatusC08),
@@ -59,7 +59,7 @@ def handlers : List (String × Handler) := [
   ("funnel", C16.handleFunnel),
   ("watcher", C16.handleWatcher),
   ("watcher-fatal", C16.handleFatal),
-  ("watcher-unsched", C16.handleUnsched),
+  ("watcher-unsched", C16.handleUnsched), ("fatalseq", C16.handleFatalSeq),
   ("watcher-late", C16.handleLate),
   ("jsonpath", C18.handleJsonpath),
   ("mutate", C18.handleMutate)
